@@ -37,6 +37,9 @@ class AbstractFeatureDirectionStrategy(object):
 
     def has_shape_annotated_features(self, shape_label):
         raise NotImplementedError()
+
+    def features_dicts_of_shape(self, shape_label):
+        raise NotImplementedError()
     #
     # def look_for_example_features(self, instance_id, shape_id):
     #     raise NotImplementedError()
